@@ -92,6 +92,17 @@ def b2l(x):
     return list(x)
 
 
+def canon_colour(c):
+    """None | ["rgb", r, g, b] | ["hex", bytes of the string] | ["other", repr]"""
+    if c is None:
+        return None
+    if isinstance(c, str):
+        return ["hex"] + list(c.encode())
+    if isinstance(c, tuple) and len(c) == 3 and all(isinstance(x, int) for x in c):
+        return ["rgb"] + list(c)
+    return ["other", repr(c)]
+
+
 def call(op, cmd):
     """Calls the function under test; canonical JSON-able result."""
     try:
@@ -115,6 +126,22 @@ def call(op, cmd):
             cls = auto_image_class()
             return {"ok": {KittyImage: "kitty", ITerm2Image: "iterm2", BlockImage: "block"}[cls],
                     "sup": [KittyImage._supported, ITerm2Image._supported, BlockImage._supported]}
+        if op == "session":
+            # ONE cache epoch (reset_library has just invalidated the caches): the public
+            # getters called in several argument forms, in the given order
+            out = []
+            for c in cmd["calls"]:
+                try:
+                    if c[0] == "fg":
+                        fg, bg = (utils.get_fg_bg_colors() if c[1] is None
+                                  else utils.get_fg_bg_colors(hex=bool(c[1])))
+                        out.append({"ok": [canon_colour(fg), canon_colour(bg)]})
+                    else:
+                        n, v = utils.get_terminal_name_version()
+                        out.append({"ok": [b2l(n), b2l(v)]})
+                except Exception as e:
+                    out.append({"exc": type(e).__name__})
+            return {"ok": out}
         if op == "raw":
             # query_terminal itself, with one of the library's own `more` predicates
             term = {"csi": ctlseqs.CSI_b, "c": b"c"}[cmd["more"]]
